@@ -17,7 +17,7 @@ static int VO[3];
 static int NK, FAULTS, PROBES = 1;
 static cstl_map_t M;
 
-static int kcmp(const void *a, const void *b, void *p) { (void)p; return ((const struct kobj *)a)->value - ((const struct kobj *)b)->value; }
+static int kcmp(const void *a, const void *b, void *p) { e_check_priv(p); return ((const struct kobj *)a)->value - ((const struct kobj *)b)->value; }
 static int ko_id(const void *k) { const struct kobj *o = k; if (!k) return 0; if (o < &KO[0][0] || o > &KO[MAXK][2]) return -1; return (int)((o - &KO[0][0]) % 3); }
 static int k_of(const void *k) { const struct kobj *o = k; if (!k) return 0; if (o < &KO[0][0] || o > &KO[MAXK][2]) return -1; return (int)((o - &KO[0][0]) / 3); }
 static int vo_id(const void *v) { const int *o = v; if (!v) return 0; if (o < &VO[0] || o > &VO[2]) return -1; return (int)(o - &VO[0]); }
@@ -33,7 +33,7 @@ static void drv_setup(int argc, char **argv)
     for (k = 0; k <= MAXK; k++) for (j = 0; j < 3; j++) { KO[k][j].tag = j; KO[k][j].value = 1000 - k; }
 }
 static void drv_header(jb_t *b) { jb_printf(b, "\"nk\":%d", NK); }
-static void drv_reset(void) { a_reset(); cstl_map_init(&M, kcmp, NULL); }
+static void drv_reset(void) { a_reset(); cstl_map_init(&M, kcmp, E_PRIV); }
 static void drv_aborted(void) { a_end(); }
 /* model key k (1..NK, ascending order of comparison) is stored in KO[NK + 1 - k] (descending addresses) */
 static struct kobj *kobj(int k, int j) { return &KO[NK + 1 - k][j]; }
@@ -43,7 +43,7 @@ static void it_json(jb_t *res, const cstl_map_iterator_t *i) { jb_printf(res, ",
 static void clear_cb(void *ip, void *p)
 {
     cstl_map_iterator_t *i = ip;
-    (void)p;
+    e_check_priv(p);
     ev_add("[\"c\",%d,%d,%d]", model_k(i->key), ko_id(i->key), vo_id(i->val));
 }
 static void drv_apply(const vop_t *op, jb_t *res)
@@ -68,7 +68,7 @@ static void drv_apply(const vop_t *op, jb_t *res)
         jb_printf(res, ",\"ret\":%d", r); it_json(res, &it);
         break;
     }
-    case 4: a_begin(0); cstl_map_clear(&M, a[0] ? clear_cb : NULL, NULL); a_end(); jb_puts(res, ",\"ret\":0"); break;
+    case 4: a_begin(0); cstl_map_clear(&M, a[0] ? clear_cb : NULL, E_PRIV); a_end(); jb_puts(res, ",\"ret\":0"); break;
     case 5: jb_puts(res, ",\"ret\":"); jb_size(res, cstl_map_size(&M)); break;
     default: jb_puts(res, ",\"ret\":0");
     }
